@@ -122,7 +122,9 @@ static std::vector<Cell> specials(const lg::Pair &p, const lg::Field &f, Rng &r)
       std::set<long long> en(f.enumerators, f.enumerators + f.nEnum);
       for (long long e : en) addI(e, "enum");
       // packed fields: every bit pattern of the field, also the ones without a name
-      if (f.W <= 6) for (long long v = 0; v < (1LL << f.W); v++) if (!en.count(v)) addI(v, "pattern");
+      // (the all-ones pattern of a field whose NA the parser hands back as the enumeration's own NA value IS that NA
+      // value on the wire, not a value of its own)
+      if (f.W <= 6) for (long long v = 0; v < (1LL << f.W); v++) if (!en.count(v) && !(f.naAlias >= 0 && v == (1LL << f.W) - 1)) addI(v, "pattern");
       break; }
     case lg::K_BOOL: addI(0, "flag"); addI(1, "flag"); break;
     case lg::K_UNION: {
